@@ -277,6 +277,10 @@ func Check04(c CaseHist, r *core.Rec) {
 			}
 			iu = v
 			r.Class("op:resolve")
+		case "clone":
+			// a Clone is a reachable URL too; the history continues on it
+			iu = iu.Clone()
+			r.Class("op:clone")
 		default:
 			continue
 		}
@@ -291,12 +295,12 @@ func Check04(c CaseHist, r *core.Rec) {
 }
 
 func Gen04(t *rapid.T) CaseHist {
-	return genHistory(t, histOpts{maxOps: 10, start: "pair", resolve: true})
+	return genHistory(t, histOpts{maxOps: 10, start: "pair", resolve: true, clone: true})
 }
 
 var P04 = core.Register(core.Prop[CaseHist]{
 	ID: "C04",
-	Rule: "a start URL ((input, base) pairs as in C01 for a third of the cases, else WPT hrefs / grammar / extreme starts) followed by 0..10 steps (nine setters, resolution of a generated reference against the current URL); " +
+	Rule: "a start URL ((input, base) pairs as in C01 for a third of the cases, else WPT hrefs / grammar / extreme starts) followed by 0..10 steps (nine setters, resolution of a generated reference against the current URL, continuing on a Clone of the URL); " +
 		"oracle: a validity predicate written from the statement (scheme syntax; special ⇒ host, non-opaque '/' path; opaque path ⇒ no host; credentials/port ⇒ non-empty host, not file; canonical non-default port; printable ASCII; no member of a component's percent-encode set or of the forbidden host/domain sets; canonical IPv6) plus the composition of Href from the getters with the '/.' guard, Host = Hostname[:Port], Href(true) = Href(false) without fragment, evaluated after every step; " +
 		"non-trivial = some step after the initial parse changed a getter; distinct by hash of the history",
 	Gen:   Gen04,
